@@ -27,7 +27,7 @@ fn gen_value(src: &mut Src, uniq: &mut u64) -> (String, ReplicatedValue, Replica
     let time = *src.pick(&[1u64, 2, 7, 1000, u64::MAX, u64::MAX - 1, 0, 1 << 53]);
     let ts = LamportClock { time, replica_id: rid };
     let key = match src.below(8) { 0 => String::new(), 1 => "k\u{0}nul".to_string(), 2 => "ключ-🔑".to_string(), 3 => "a".repeat(300), 4 => "k\r\nv".to_string(), 5 => "\"quoted\\\"".to_string(), _ => format!("key:{}", uniq) };
-    let bytes = |s: &mut Src| -> Vec<u8> { match s.below(7) { 0 => vec![], 1 => vec![0, 255, 13, 10, 0], 2 => (0..=255u8).collect(), 3 => vec![b'x'; 23], 4 => vec![b'y'; 24], 5 => (0..(300 + s.below(900))).map(|i| (i * 7) as u8).collect(), _ => format!("v{}", s.below(1000)).into_bytes() } };
+    let bytes = |s: &mut Src| -> Vec<u8> { if s.chance(1, 3000) { return vec![b'z'; (1 << 20) + s.below(3) as usize * 70_000]; } match s.below(7) { 0 => vec![], 1 => vec![0, 255, 13, 10, 0], 2 => (0..=255u8).collect(), 3 => vec![b'x'; 23], 4 => vec![b'y'; 24], 5 => (0..(300 + s.below(900))).map(|i| (i * 7) as u8).collect(), _ => format!("v{}", s.below(1000)).into_bytes() } };
     let mut v = match src.below(9) {
         0 | 1 => ReplicatedValue::with_value(SDS::new(bytes(src)), ts),
         2 => { let mut v = ReplicatedValue::with_value(SDS::new(bytes(src)), ts); let mut c = ts; c.time = c.time.saturating_sub(1); v.delete(&mut c); v.timestamp = ts; v }
@@ -90,7 +90,7 @@ impl Property for C14 {
     fn id(&self) -> &'static str { "C14" }
     fn level(&self) -> &'static str { "fault_enumeration" }
     fn rule(&self) -> &'static str {
-        "batches of 1-40 (sometimes 1000) updates over every replicated type (LWW strings incl. empty/binary/23-24-byte/4 KiB values, tombstones, hashes with 1-300 fields and field tombstones, G/PN counters, G/OR sets, bare registers), keys with NUL/CR LF/quotes/non-ASCII/empty/300 bytes, stamps and replica ids at 0 and u64::MAX, expiry, vector clocks with up to 40 replicas, RF overrides; each batch encoded as WAL entries, segment, checkpoint and gossip JSON and decoded back (structural equality on every serialised field). Damage per image: every truncation length and every single-bit flip (complete when that is <= 1200 mutations, thorough: <= 30000, i.e. images up to ~130 B / ~3.3 KB; probe image_damage_enumerated_completely counts those), otherwise an evenly spread subset of that size incl. the first/last 64 bytes; 2-bit flips and bursts <= 32 bits sampled. Non-trivial = damage inside an image holding >= 1 update; distinct = (image, mutation)"
+        "batches of 1-40 (sometimes 1000) updates over every replicated type (LWW strings incl. empty/binary/23-24-byte/1 KiB and occasionally > 1 MiB values, tombstones, hashes with 1-300 fields and field tombstones, G/PN counters, G/OR sets, bare registers), keys with NUL/CR LF/quotes/non-ASCII/empty/300 bytes, stamps and replica ids at 0 and u64::MAX, expiry, vector clocks with up to 40 replicas, RF overrides; each batch encoded as WAL entries, segment, checkpoint and gossip JSON and decoded back (structural equality on every serialised field). Damage per image: every truncation length and every single-bit flip (complete when that is <= 1200 mutations, thorough: <= 30000, i.e. images up to ~130 B / ~3.3 KB; probe image_damage_enumerated_completely counts those), otherwise an evenly spread subset of that size incl. the first/last 64 bytes; 2-bit flips and bursts <= 32 bits sampled. Non-trivial = damage inside an image holding >= 1 update; distinct = (image, mutation)"
     }
     fn components_real(&self) -> Vec<&'static str> { vec!["streaming::wal::WalEntry::{from_delta,encode,decode,to_delta}", "streaming::segment::{SegmentWriter,SegmentReader::{open,validate,deltas}}", "streaming::checkpoint::{CheckpointWriter::write, CheckpointReader::{open,validate,load}}", "replication::gossip::GossipMessage::{serialize,deserialize}", "serde/bincode impls of ReplicatedValue, CrdtValue, SDS, lattices"] }
     fn components_stubbed(&self) -> Vec<&'static str> { vec!["no store/transport: the encoded image is damaged in memory, standing for at-rest corruption and torn reads (C10/C12 run the same readers behind the simulated disk and object store)"] }
